@@ -79,6 +79,22 @@ def run(ctx: Ctx) -> int:
                 text, umd = with_user_cpp(R, q)
                 evs = evgen.gen_events(s, ctx.rng("c05ev", backend, i), nev)
                 all_cases.append(diff.Case(backend, text, evs, diff.members_used(s, text) + umd, tag=q))
+    # shapes where state is most exposed: a vector column filled BEFORE a partial operation of the same row can fail,
+    # guards and faults of every kind (the C04 guard templates), rejected events between accepted ones
+    if not ctx.replay:
+        from .c04 import templates as guard_templates
+        for backend in sch.BACKENDS:
+            s = sch.fixed(backend)
+            C = s["main"]["coll"]
+            J = f"e.{C}('A')"
+            extra = [f"ds.Select(lambda e: {{'pt': {J}.Select(lambda j: j.pt()), 'lead': {J}.Where(lambda j: j.pt() > 30.0).First().pt()}})",
+                     f"ds.Select(lambda e: ({J}.Select(lambda j: j.trkPts().Select(lambda t: t * 2)), {J}.Select(lambda j: j.eta()), {J}[1].pt()))",
+                     f"ds.Select(lambda e: ({J}.Select(lambda j: j.pt()), e.{C}('B').First().eta(), {J}.Count()))",
+                     f"ds.Where(lambda e: {J}.Count() > 1).Select(lambda e: ({J}.Select(lambda j: j.nTrk()), {J}.Select(lambda j: j.trkPts().First())))"]
+            ts = extra + [t for i, t in enumerate(guard_templates(backend, s)) if not ctx.quick or (i + ctx.seed) % 3 == 0]
+            for i, t in enumerate(ts):
+                evs = evgen.gen_events(s, ctx.rng("c05tev", backend, i), nev)
+                all_cases.append(diff.Case(backend, t, evs, diff.members_used(s, t), tag={"features": {"template": 2, f"t{i}": 1}}))
     trs = eng.translate(all_cases)
     for c in all_cases:
         eng.model(c.backend)
